@@ -103,6 +103,8 @@ func (b *bleveIndex) Search(terms []string) ([]string, error) {
 	b.mu.RLock()
 	defer b.mu.RUnlock()
 
+	// the quoted form must not be written back into the caller's slice (the Search field of a query)
+	terms = append([]string(nil), terms...)
 	for i, term := range terms {
 		if strings.Contains(term, " ") {
 			terms[i] = fmt.Sprintf("\"%s\"", term)
